@@ -28,6 +28,9 @@ type Case struct {
 	Prefix []int
 	Cycle  []int
 	Uses   []string
+	// Repeat > 1: a session - the program's forms (read once) are evaluated Repeat times in the same
+	// environment, the command script going on across the repetitions
+	Repeat int `json:",omitempty"`
 }
 
 func (c Case) Text() string {
@@ -43,7 +46,7 @@ var candidates = []string{"z", "m", "a", "b", "c", "x", "y", "n", "f", "k", "e",
 var cmdGen = rapid.SampledFrom([]int{0, 0, 0, 3, 3, 1, 1, 2, 2})
 
 func genCase(t *rapid.T) Case {
-	p := gen.Program(t, gen.PFlags{Cond: true, Try: true, QQ: true, Macros: true, Budget: 40, MaxRec: 4})
+	p := gen.Program(t, gen.PFlags{Cond: true, Try: true, QQ: true, Macros: true, Budget: 40, MaxRec: 4, Malformed: true})
 	c := Case{Forms: p.Forms}
 	for u := range p.Uses {
 		c.Uses = append(c.Uses, u)
@@ -57,6 +60,9 @@ func genCase(t *rapid.T) Case {
 	default:
 		c.Prefix = rapid.SliceOfN(cmdGen, 0, 30).Draw(t, "prefix")
 		c.Cycle = rapid.SliceOfN(cmdGen, 1, 6).Draw(t, "cycle")
+	}
+	if gen.Chance(t, "session", 25) {
+		c.Repeat = []int{2, 20, 300, 4000}[gen.Uniform(t, "sessionlen", 4)]
 	}
 	return c
 }
@@ -87,29 +93,48 @@ type seen struct {
 }
 
 type runOut struct {
-	r     box.Result
-	trace []val.V
+	r     box.Result // first pass
+	trace []val.V    // effects of the first pass
 	env   types.EnvType
+	last  box.Result // last pass of a session
+	all   []val.V    // effects of the whole session (sessions keep only the last 64)
+	diffs string
 }
 
-func run(ctx context.Context, c Case) runOut {
+func run(ctx context.Context, c Case, afterFirst func()) runOut {
 	e := box.CoreEnv()
 	tr := box.AddTrace(e)
-	var r box.Result
-	for _, f := range c.Forms {
-		src := val.Literal(f)
-		r = box.Guard(func() (types.MalType, error) {
-			ast, err := lisp.READ(src, nil, e)
-			if err != nil {
-				return nil, err
-			}
-			return lisp.EVAL(ctx, ast, e)
-		})
-		if r.Panicked || r.Err != nil {
-			break
+	asts := make([]types.MalType, len(c.Forms))
+	for i, f := range c.Forms {
+		ast, err := lisp.READ(val.Literal(f), nil, e)
+		if err != nil {
+			return runOut{r: box.Result{Err: err}, last: box.Result{Err: err}, env: e}
 		}
+		asts[i] = ast
 	}
-	return runOut{r: r, trace: tr.Snapshot(), env: e}
+	pass := func() box.Result {
+		var r box.Result
+		for _, ast := range asts {
+			r = box.Eval(ctx, ast, e)
+			if r.Panicked || r.Err != nil {
+				break
+			}
+		}
+		return r
+	}
+	out := runOut{env: e}
+	out.r = pass()
+	out.trace = tr.Snapshot()
+	out.last = out.r
+	if afterFirst != nil {
+		afterFirst()
+	}
+	for k := 1; k < c.Repeat && !out.last.Panicked; k++ {
+		tr.Reset()
+		out.last = pass()
+	}
+	out.all = tr.Snapshot()
+	return out
 }
 
 func check(c Case) pbt.Verdict {
@@ -124,8 +149,14 @@ func check(c Case) pbt.Verdict {
 	in := refmal.New()
 	in.LogVar = programVar
 	o := in.Run(c.Forms)
+	// where the reference interpreter leaves the outcome open (malformed special forms …) the stepped
+	// run is still compared with the plain run, which is what the property is about
+	relative, why := false, o.Aborted
 	if o.Aborted != "" {
-		return pbt.Verdict{Excluded: "model-" + strings.SplitN(o.Aborted, ":", 2)[0], Labels: []string{"excluded:" + o.Aborted}}
+		if !strings.HasPrefix(o.Aborted, "unspecified") {
+			return pbt.Verdict{Excluded: "model-" + strings.SplitN(o.Aborted, ":", 2)[0], Labels: []string{"excluded:" + o.Aborted}}
+		}
+		relative = true
 	}
 	ctx, cancel := context.WithTimeout(context.Background(), 20*time.Second)
 	defer cancel()
@@ -133,7 +164,13 @@ func check(c Case) pbt.Verdict {
 	// run A: no stepper
 	lisp.Stepper = nil
 	lisp.VerifResetStepper()
-	a := run(ctx, c)
+	a := run(ctx, c, nil)
+	if a.r.Panicked {
+		return pbt.Failf("panic:"+a.r.PanicSite, "plain run panicked: %v\nprogram:\n%s", a.r.PanicVal, c.Text())
+	}
+	if relative {
+		o = box.OutcomeOf(a.r)
+	}
 	if sig, msg := box.CompareOutcome(o, a.r); sig != "" {
 		return pbt.Verdict{Excluded: "plain-run-disagrees-with-model", Labels: []string{"plain-run-disagrees:" + sig + ":" + msg[:min(60, len(msg))]}}
 	}
@@ -165,7 +202,11 @@ func check(c Case) pbt.Verdict {
 		}
 		return next()
 	}
-	b := run(ctx, c)
+	firstPass := -1
+	b := run(ctx, c, func() { firstPass = len(log) })
+	if firstPass >= 0 {
+		log = log[:firstPass] // the definition's variable evaluations are known for the first pass only
+	}
 	lisp.Stepper = nil
 	lisp.VerifResetStepper()
 
@@ -179,11 +220,24 @@ func check(c Case) pbt.Verdict {
 	if d := box.CompareTrace(a.trace, b.trace); d != "" {
 		return pbt.Failf("stepped:effects-differ", "plain run vs stepped run: %s%s", d, prog)
 	}
-	if d := box.CompareTrace(in.Trace, b.trace); d != "" {
-		return pbt.Failf("stepped:effects-differ-from-definition", "%s%s", d, prog)
+	if sig, msg := box.CompareResults(a.r, b.r, true); sig != "" {
+		return pbt.Failf("stepped:"+sig, "plain run vs stepped run: %s%s", msg, prog)
 	}
-	if d := box.CompareGlobals(in, b.env, candidates); d != "" {
-		return pbt.Failf("stepped:globals-differ", "%s%s", d, prog)
+	if c.Repeat > 1 {
+		if sig, msg := box.CompareResults(a.last, b.last, true); sig != "" {
+			return pbt.Failf("stepped:session:"+sig, "pass %d of a session in one environment, plain vs stepped: %s%s", c.Repeat, msg, prog)
+		}
+		if d := box.CompareTrace(a.all, b.all); d != "" {
+			return pbt.Failf("stepped:session:effects-differ", "pass %d of a session in one environment, plain vs stepped: %s%s", c.Repeat, d, prog)
+		}
+	}
+	if !relative {
+		if d := box.CompareTrace(in.Trace, b.trace); d != "" {
+			return pbt.Failf("stepped:effects-differ-from-definition", "%s%s", d, prog)
+		}
+		if d := box.CompareGlobals(in, b.env, candidates); d != "" {
+			return pbt.Failf("stepped:globals-differ", "%s%s", d, prog)
+		}
 	}
 	// scope check: the (variable, value-in-the-scope-handed-over) pairs are an in-order
 	// subsequence of the definition's variable evaluations; equal when nothing is skipped
@@ -192,6 +246,9 @@ func check(c Case) pbt.Verdict {
 		if x == 1 || x == 2 {
 			all = false
 		}
+	}
+	if relative {
+		log = nil // the definition's variable evaluations are not known
 	}
 	j := 0
 	for i, s := range log {
@@ -211,7 +268,7 @@ func check(c Case) pbt.Verdict {
 	}
 	// how often the callback is consulted is not part of the property (the tail form of a
 	// catch handler, for instance, is evaluated by the loop without a consultation)
-	v := pbt.Verdict{Key: c.Text() + fmt.Sprint(c.Prefix, c.Cycle)}
+	v := pbt.Verdict{Key: c.Text() + fmt.Sprint(c.Prefix, c.Cycle, c.Repeat)}
 	hasNext, hasOut := false, false
 	for _, x := range append(append([]int{}, c.Prefix...), c.Cycle...) {
 		hasNext = hasNext || x == 1
@@ -233,7 +290,13 @@ func check(c Case) pbt.Verdict {
 	if consulted > 0 {
 		v.Labels = append(v.Labels, "callback-consulted")
 	}
-	v.NonTrivial = hasNext && hasOut && prg && len(log) > 0
+	if relative {
+		v.Labels = append(v.Labels, "relative:"+why)
+	}
+	if c.Repeat > 1 {
+		v.Labels = append(v.Labels, fmt.Sprintf("session:%d", c.Repeat))
+	}
+	v.NonTrivial = hasNext && hasOut && prg && (len(log) > 0 || relative)
 	return v
 }
 
